@@ -111,6 +111,18 @@ def correspondence(ctx):
             "distribution": {"cases": len(cl), "with_fault": sum(1 for x in cl if x[3] or x[4])}, "disagreements": dis}
 
 
+def _guard(probe, *args):
+    """a probe whose healthy, fault-free history makes the implementation raise has found something: report it, do not crash"""
+    try:
+        return probe(*args)
+    except Exception as e:  # noqa
+        import traceback
+        tb = [f for f in traceback.extract_tb(e.__traceback__) if "pymemcache" in f.filename]
+        if not tb:
+            raise
+        return ("a fault-free history raised %s: %s (at %s:%d)" % (type(e).__name__, str(e)[:80], tb[-1].filename.split("/")[-1], tb[-1].lineno)), repr(args)[:200]
+
+
 def search(ctx):
     """C09's clauses on the real PooledClient: socket identity per command, pool.used after each call."""
     found = []
@@ -184,19 +196,19 @@ def search(ctx):
     nh = 0
     for op, rep in HEALTHY_OPS:
         nh += 1
-        why, detail = healthy_reuse(op, rep)
+        why, detail = _guard(healthy_reuse, op, rep)
         if why:
             found.append({"clause": why, "input": {"op": repr(op), "reply": repr(rep)}, "observed": detail, "size": 1, "case": None,
                           "healthy_case": repr((op, rep))})
     for case in TWO_IDLE:
         nh += 1
-        why, detail = two_idle_probe(*case)
+        why, detail = _guard(two_idle_probe, *case)
         if why:
             found.append({"clause": why, "input": {"pool_idle_timeout": case[0], "inner released at": case[1], "outer released at": case[2], "next call at": case[3],
                                                     "max_pool_size": case[4]}, "observed": detail, "size": 1, "case": None, "two_idle_case": repr(case)})
     for t, gaps, size in FRACTIONAL:
         nh += 1
-        why, detail = fractional_idle(t, gaps, size)
+        why, detail = _guard(fractional_idle, t, gaps, size)
         if why:
             found.append({"clause": why, "input": {"pool_idle_timeout": t, "idle_gaps": gaps, "max_pool_size": size}, "observed": detail, "size": 1, "case": None,
                           "fractional_case": repr((t, gaps, size))})
